@@ -18,6 +18,7 @@ import (
 	"math/bits"
 	"os"
 	"path/filepath"
+	"runtime/pprof"
 	"sort"
 	"strings"
 	"time"
@@ -157,6 +158,7 @@ func runPair(ctx *hx.Ctx, pc *PairCase) (class, summary string, found bool) {
 	rc := remoteChain(pc.RemoteLen, pc.Seed, pc.BigTx)
 	remoteBlocks := bestChainBlocks(rc.Repo())
 	lc := buildLocal(pc, remoteBlocks)
+	defer closeChain(lc)
 	localIDs, remoteIDs := bestChainIDs(lc.Repo()), bestChainIDs(rc.Repo())
 	head := uint32(len(localIDs) - 1)
 	want := lastCommon(localIDs, remoteIDs)
@@ -416,6 +418,11 @@ func main() {
 		return
 	}
 	ctx := hx.Init("C19")
+	if pf := os.Getenv("C19_CPUPROF"); pf != "" {
+		f, _ := os.Create(pf)
+		pprof.StartCPUProfile(f)
+		defer pprof.StopCPUProfile()
+	}
 	var err error
 	oracle, err = hx.StartOracle(ctx.Oracle)
 	if err != nil {
@@ -433,11 +440,23 @@ func main() {
 			}
 		}
 		rnd := hx.NewRand(ctx.Seed)
-		partD(ctx, rnd.Fork(4))
-		partA(ctx, rnd.Fork(1))
-		partB(ctx, rnd.Fork(2))
-		partC(ctx, rnd.Fork(3))
+		parts := os.Getenv("C19_PARTS") // debugging aid: subset of "DABC"; empty = all
+		run := func(p string) bool { return parts == "" || strings.Contains(parts, p) }
+		rD, rA, rB, rC := rnd.Fork(4), rnd.Fork(1), rnd.Fork(2), rnd.Fork(3)
+		if run("D") {
+			partD(ctx, rD)
+		}
+		if run("A") {
+			partA(ctx, rA)
+		}
+		if run("B") {
+			partB(ctx, rB)
+		}
+		if run("C") {
+			partC(ctx, rC)
+		}
 	}
+	pprof.StopCPUProfile()
 	ctx.Finish(
 		"distinct = distinct canonical cases (chain pair descriptor / batch script / message bytes); non-trivial = chain pair that forks or is remote-shorter-but-heavier or a prefix needing >1 block, a batch script with an offending block, a message that reaches a handler branch beyond the envelope",
 		[]string{
